@@ -856,8 +856,9 @@ def greedy_model(ctx, inst, k, opt_greedy, first):
     ans = ctx.driver.call({"op": "greedy.shortcut", "nodes": first["nodes"], "edges": [list(e) for e in first["edges"]],
                            "topo": first["topo"], "flow": first["flow"], "k": k, "opt_greedy": opt_greedy,
                            "ignore_empty": len(inst["ignore"]) == 0, "conserving": conserving_edges(inst),
-                           "constraints": [[[e[0], e[1], "1"] for e in c] for c in inst["constraints"]],
-                           "coverage": qstr(frac(inst.get("coverage", "1")))})
+                           "constraints": [[[e[0], e[1], edge_len(inst, e)] for e in c] for c in inst["constraints"]],
+                           "coverage": qstr(frac(inst["coverage_length"] if inst.get("coverage_length") is not None
+                                                 else inst.get("coverage", "1")))})
     if "stuck" in ans:
         return {"stuck": True}
     if not ans["fired"]:
@@ -865,8 +866,74 @@ def greedy_model(ctx, inst, k, opt_greedy, first):
     return {"fired": True, "paths": ans["paths"], "weights": [qstr(Fraction(w)) for w in ans["weights"]]}
 
 
-def greedy_instance(rng):
+def edge_len(inst, e):
+    """the length the code gives an edge of a constraint: its length attribute (missing: 1) when
+    subpath_constraints_coverage_length is set, else 1"""
+    if inst.get("coverage_length") is None:
+        return "1"
+    return {(u, v): q for u, v, q in inst.get("lengths", [])}.get((e[0], e[1]), "1")
+
+
+def greedy_occurrences(fp, inst):
+    """per constraint: (weighted max occurrence over the greedy paths, weighted constraint length); None if greedy fails"""
+    try:
+        G = nx.DiGraph(); G.add_nodes_from(inst["nodes"])
+        for u, v, q in inst["flow"]:
+            G.add_edge(u, v, flow=float(frac(q)))
+        paths = fp.stDAG(G).decompose_using_max_bottleneck("flow")[0]
+    except Exception:
+        return None
+    out = []
+    for c in inst["constraints"]:
+        ln = [frac(edge_len(inst, e)) for e in c]
+        occ = 0
+        for p in paths:
+            pe = {(p[i], p[i + 1]) for i in range(len(p) - 1)}
+            occ = max(occ, sum((l for e, l in zip(c, ln) if (e[0], e[1]) in pe), Fraction(0)))
+        out.append((occ, sum(ln, Fraction(0))))
+    return out
+
+
+def has_tie(fp, inst):
+    occ = greedy_occurrences(fp, inst)
+    cov = frac(inst["coverage_length"])
+    return bool(occ) and any(o == cov * t for o, t in occ)
+
+
+def weighted_greedy_instance(rng, fp):
+    """constraints with per-edge lengths (0 included, some edges without length attribute = 1) and
+    subpath_constraints_coverage_length; half of the draws insist (by resampling) on an exact tie
+    occurrence length = coverage * constraint length for some constraint"""
+    for _ in range(12):
+        inst = detour_instance(rng) if rng.random() < 0.25 else edge_instance(rng, features=False)
+        inst = dict(inst); inst.pop("stale_file_attrs", None)
+        if not inst["constraints"]:
+            inst["constraints"] = [[list(e) for e in c] for c in
+                                   gen.subpaths(rng, inst["nodes"], [tuple(e) for e in inst["edges"]],
+                                                contiguous=rng.random() < 0.7) if c]
+        if inst["constraints"]:
+            break
+    if not inst["constraints"]:
+        return inst
+    want_tie = rng.random() < 0.5
+    best = None
+    for _ in range(10):
+        cand = dict(inst)
+        pool = rng.choice([[0, 1, 2], [0, 1, 2, 3, 4], [1, 2, 3], [0, 0, 1, 4], [2, 4, 6, 8]])
+        cand["lengths"] = [[e[0], e[1], str(rng.choice(pool))] for e in inst["edges"] if rng.random() < 0.85]
+        if not cand["lengths"]:
+            e = inst["edges"][0]; cand["lengths"] = [[e[0], e[1], str(rng.choice(pool))]]
+        cand["coverage_length"] = rng.choice(["0.5", "0.25", "0.75", "1", "0.5"])
+        best = cand
+        if not want_tie or has_tie(fp, cand):
+            break
+    return best
+
+
+def greedy_instance(rng, fp=None):
     r = rng.random()
+    if fp is not None and rng.random() < 0.34:
+        return weighted_greedy_instance(rng, fp)
     if r < 0.15:
         inst = detour_instance(rng)
     elif r < 0.3:
@@ -940,7 +1007,10 @@ def greedy_case(ctx, inst, k, opts, via, suite="K1.greedy"):
     ctx.rep.count(suite, desc, nontrivial=fired_any or bool(opts) or bool(inst["constraints"]) or bool(inst["ignore"]),
                   hist=["fired" if fired_any else "not fired", via,
                         "constraints" if inst["constraints"] else ("ignored" if inst["ignore"] else "plain"),
-                        "greedy off" if not opt_greedy else "greedy on"])
+                        "greedy off" if not opt_greedy else "greedy on"]
+                  + (["edge lengths"] + (["length 0"] if any(frac(q) == 0 for _, _, q in inst["lengths"]) else [])
+                     + (["length tie"] if has_tie(ctx.fp, inst) else [])
+                     if inst.get("coverage_length") is not None else []))
     return rows
 
 
@@ -948,7 +1018,7 @@ def run_k1_greedy(ctx):
     rng = ctx.rng
     shown = 0
     for it in range(ctx.n(500, 6000)):
-        inst = greedy_instance(rng)
+        inst = greedy_instance(rng, ctx.fp)
         opts = {}
         if rng.random() < 0.15:
             opts["optimize_with_greedy"] = False
